@@ -345,6 +345,14 @@ def rule_str_never_formats_none(eng, rep, rule="C20-4.str-never-formats-None", s
                     continue
                 n += 1
                 f = _self_attr(a, selfn)
+                if f is None and isinstance(a, ast.Call) and isinstance(a.func, ast.Name) and a.func.id in ("len", "int", "float") and a.args and _self_attr(a.args[0], selfn):
+                    f2 = _self_attr(a.args[0], selfn)
+                    if any(g.op == "isnot" and _self_attr(g.lhs, selfn) == f2 and is_none(g.rhs) for g in gs) or safe.get(f2) is True:
+                        rep.ok(rule, eng.where(st, node), "%%%s of %s(self.%s): field cannot be None here" % (c, a.func.id, f2))
+                    else:
+                        rep.bad(rule, eng.where(st, node), "solver.OptimResults.__str__|formats-none|%s" % f2,
+                                "%%%s is applied to %s(self.%s) but self.%s can be None on this branch (TypeError when printing)" % (c, a.func.id, f2, f2))
+                    continue
                 if f is None:
                     rep.unknown(rule, eng.where(st, node), "numeric conversion %%%s applied to %s (not a plain field)" % (c, short(a)))
                     continue
